@@ -13,12 +13,19 @@
 (* Contexts are VALUES: context id c (0 = the empty context) denotes the   *)
 (* total function val[c] : Keys -> Val \cup {0} (0 = key absent).          *)
 (* SetValue / SetValues create a NEW id; nothing ever changes an old one.  *)
-(* A token is identified with the context it was created for (that is all  *)
-(* the API lets a token be compared with), so Detach takes a context id:   *)
-(* it matches the MOST RECENT occurrence of that context on the calling    *)
-(* thread's stack and unwinds everything above it; a token whose context   *)
-(* is not on the calling thread's stack (already detached, or attached by  *)
-(* another thread) changes nothing.                                        *)
+(* A TOKEN is an object of its own: Attach creates token k for context     *)
+(* tok[k]; the program may keep it after it was detached, detach it again  *)
+(* and destroy it at any later time on any thread (its destructor          *)
+(* detaches).  All the API lets a token be compared with is the context it *)
+(* was created for, so Detach(token k) matches the MOST RECENT occurrence  *)
+(* of the context tok[k] on the calling thread's stack and unwinds         *)
+(* everything above it; a token whose context is not on the calling        *)
+(* thread's stack (already detached = STALE, or attached by another        *)
+(* thread) changes nothing - whatever happened to its context meanwhile:   *)
+(* a token does not keep its context nameable, every handle of the context *)
+(* may be dropped while the token lives (the real object may then die) and *)
+(* contexts created later are DIFFERENT contexts (new ids), so a stale     *)
+(* token can never match them.                                             *)
 (*                                                                         *)
 (* The program holds HANDLES to contexts (`live`).  Dropping a handle        *)
 (* (DropContext) may destroy the real object - in any order relative to    *)
@@ -32,7 +39,7 @@
 (* Left open on purpose (the statement is silent): the boolean returned    *)
 (* by Detach of an empty-context token on an empty stack (ok = 2).         *)
 (***************************************************************************)
-EXTENDS Naturals, Sequences, FiniteSets, TLC, Json
+EXTENDS Integers, Sequences, FiniteSets, TLC, Json
 
 CONSTANTS NT,         \* threads 1..NT
           NK,         \* keys 1..NK   (key 1 = active-span key)
@@ -43,6 +50,9 @@ CONSTANTS NT,         \* threads 1..NT
           MaxDepth,   \* bound on the depth of a thread's stack
           MaxMap,     \* SetValues maps bind at most MaxMap keys
           MaxDrop,    \* bound on the number of dropped context handles
+          MaxTok,     \* bound on the number of token objects alive at the same time
+          SampleToks, \* random walks only (TLC enumerates EVERY successor of every step): > 0 = detach / destroy candidates
+                      \* are the newest token object and SampleToks - 1 randomly drawn ones; 0 = every live token object
           WithEmpty,  \* BOOLEAN: the empty ContextValue{} (monostate) can be bound ("clear a key")
           GenDepth,   \* generation runs: length of an exported behaviour
           DeepTarget, \* generation runs: stack depth that sets the flag "deep"
@@ -64,17 +74,19 @@ IsSpan(v) == v > 100
 VARIABLES val,      \* Seq: val[c] \in [Keys -> Val \cup {0}]   the value of context c
           origin,   \* ghost Seq: origin[c] = [p |-> parent id, m |-> [Keys -> Val \cup {0}], sc |-> made by a Scope]
           stack,    \* [Threads -> Seq([c |-> ctx id, before |-> ctx id current before the Attach])]
-          toks,     \* context ids for which a token exists (attached at least once, by anybody)
+          tok,      \* Seq: tok[k] = the context token object k was returned for by Attach; -1 = object destroyed
           scopes,   \* context ids owned by a live trace::Scope
           live,     \* context ids the program still holds a handle to (0, the empty context, always is)
           phase,    \* ghost per thread: 0 start, 1 deep (>= DeepTarget) reached, 2 unwound to <= 3, 3 deep again
           last,     \* the last operation (for the action properties and the export)
           flags,    \* ghost (generation / coverage runs): [f |-> rare conditions seen so far,
-                    \*        dn |-> for every dropped handle c, the number of contexts that existed when it was dropped]
+                    \*        dn |-> for every context c that became UNREFERENCED (handle dropped and on no stack: only
+                    \*               token objects may still know it), [n |-> number of contexts that existed then,
+                    \*               pop |-> it happened when its last frame was popped (not when the handle was dropped)]]
           hist      \* behaviour export
 
-bvars == <<val, origin, stack, toks, scopes, live, phase>>
-vars  == <<val, origin, stack, toks, scopes, live, phase, last, flags, hist>>
+bvars == <<val, origin, stack, tok, scopes, live, phase>>
+vars  == <<val, origin, stack, tok, scopes, live, phase, last, flags, hist>>
 
 NCtx     == Len(val)
 NSet     == Cardinality({c \in 1..Len(val) : ~origin[c].sc})
@@ -86,7 +98,11 @@ CurSpan(V, S, t) == SpanOf(V, Cur(S, t))
 Max(S) == CHOOSE x \in S : \A y \in S : y <= x
 Occ(S, t, c) == {i \in 1..Len(S[t]) : S[t][i].c = c}
 
-NoOp == [op |-> "Init", t |-> 0, c |-> 0, k |-> 0, v |-> 0, m |-> <<>>, ok |-> 1, n |-> 0]
+LiveToks == {k \in 1..Len(tok) : tok[k] # -1}
+TokBag   == [c \in Ctxs |-> Cardinality({k \in LiveToks : tok[k] = c})]   \* tokens of one context are interchangeable
+
+NoOp == [op |-> "Init", t |-> 0, c |-> 0, k |-> 0, v |-> 0, m |-> <<>>, ok |-> 1, n |-> 0, tk |-> 0,
+         stale |-> FALSE]    \* ghost: the FIRST operation of the behaviour that detaches / destroys a stale token or scope
 
 \* the observable projection after a step: what every thread sees as current context / active
 \* span, and what EVERY context created so far answers for EVERY key
@@ -99,10 +115,19 @@ Rec(l) == /\ last' = l
 FlagD(f, d) == flags' = IF Hist \/ KeepFlags THEN [f |-> flags.f \cup f, dn |-> d] ELSE flags
 Flag(f) == FlagD(f, flags.dn)
 NoFlags == [f |-> {}, dn |-> <<>>]
+\* contexts among `cands` that the step leaves unreferenced (evaluated AFTER stack' and live' are assigned)
+Unref(cands, pop) ==
+  LET gone == {c \in cands : /\ c # 0 /\ c \notin DOMAIN flags.dn /\ c \notin live'
+                             /\ \A u \in Threads : \A i \in 1..Len(stack'[u]) : stack'[u][i].c # c} IN
+  flags.dn @@ [c \in gone |-> [n |-> Len(val'), pop |-> pop]]
+\* the contexts of the frames that Detach / ~Token / ~Scope of context c pops on thread t
+Popped(t, c) == LET o == {i \in 1..Len(stack[t]) : stack[t][i].c = c} IN
+                IF o = {} THEN {}
+                ELSE {stack[t][i].c : i \in (CHOOSE x \in o : \A y \in o : y <= x)..Len(stack[t])}
 
 Init == /\ val = <<>> /\ origin = <<>>
         /\ stack = [t \in Threads |-> <<>>]
-        /\ toks = {} /\ scopes = {} /\ live = {} /\ phase = [t \in Threads |-> 0]
+        /\ tok = <<>> /\ scopes = {} /\ live = {} /\ phase = [t \in Threads |-> 0]
         /\ last = NoOp /\ flags = NoFlags /\ hist = <<>>
 
 Handles == live \cup {0}
@@ -120,7 +145,7 @@ SetValue(t, p, k, v) ==
      /\ val' = Append(val, Derive(p, m))
      /\ origin' = Append(origin, [p |-> p, m |-> m, sc |-> FALSE])
   /\ live' = live \cup {NCtx + 1}
-  /\ UNCHANGED <<stack, toks, scopes, phase>>
+  /\ UNCHANGED <<stack, tok, scopes, phase>>
   /\ Rec([NoOp EXCEPT !.op = "SetValue", !.t = t, !.c = p, !.k = k, !.v = v, !.n = NCtx + 1])
   /\ Flag((IF Value(val, p, k) # 0 THEN {"shadow"} ELSE {}) \cup
           (IF v = Empty /\ Value(val, p, k) # 0 THEN {"clear_key"} ELSE {}) \cup
@@ -134,7 +159,7 @@ SetValues(t, p, m) ==
   /\ val' = Append(val, Derive(p, m))
   /\ origin' = Append(origin, [p |-> p, m |-> m, sc |-> FALSE])
   /\ live' = live \cup {NCtx + 1}
-  /\ UNCHANGED <<stack, toks, scopes, phase>>
+  /\ UNCHANGED <<stack, tok, scopes, phase>>
   /\ Rec([NoOp EXCEPT !.op = "SetValues", !.t = t, !.c = p, !.m = MapSeq(m), !.n = NCtx + 1])
   /\ Flag((IF \A k \in Keys : m[k] = 0 THEN {"emptymap"} ELSE {}) \cup
           (IF \E k \in Keys : m[k] # 0 /\ Value(val, p, k) # 0 THEN {"shadowmap"} ELSE {}) \cup
@@ -142,31 +167,34 @@ SetValues(t, p, m) ==
 
 (* ---- RuntimeContext::Attach -------------------------------------------- *)
 Attach(t, c) ==
-  /\ c \in Handles /\ Len(stack[t]) < MaxDepth
+  /\ c \in Handles /\ Len(stack[t]) < MaxDepth /\ Cardinality(LiveToks) < MaxTok
   /\ stack' = [stack EXCEPT ![t] = Append(@, [c |-> c, before |-> Cur(stack, t)])]
-  /\ toks' = toks \cup {c}
+  /\ tok' = Append(tok, c)                  \* a new token object; the caller owns it
   /\ Phase(t)
   /\ UNCHANGED <<val, origin, scopes, live>>
-  /\ Rec([NoOp EXCEPT !.op = "Attach", !.t = t, !.c = c])
+  /\ Rec([NoOp EXCEPT !.op = "Attach", !.t = t, !.c = c, !.tk = Len(tok) + 1])
   /\ Flag((IF Len(stack[t]) + 1 >= DeepTarget THEN {"deep"} ELSE {}) \cup
           (IF Occ(stack, t, c) # {} THEN {"reattach"} ELSE {}) \cup
           (IF phase[t] = 2 /\ Len(stack[t]) + 1 >= DeepTarget THEN {"regrow"} ELSE {}))
 
-(* ---- RuntimeContext::Detach(token of context c) -------------------------- *)
+(* ---- RuntimeContext::Detach(token k), c = tok[k] the context it was created for ---- *)
 Unwind(t, c) == IF Occ(stack, t, c) = {} THEN stack
                 ELSE [stack EXCEPT ![t] = SubSeq(@, 1, Max(Occ(stack, t, c)) - 1)]
+\* a STALE token / scope (its context c is unreferenced: every handle dropped, on no stack, nothing was ever derived
+\* from it - the real object is gone) while a context created AFTER that moment is current on the calling thread:
+\* it still changes nothing
+StaleGone(t, c) == /\ c \in DOMAIN flags.dn /\ stack[t] # <<>>
+                   /\ stack[t][Len(stack[t])].c > flags.dn[c].n
+                   /\ \A q \in 1..NCtx : origin[q].p # c
+StaleOps == {"stale_detach", "stale_dtor", "stale_scope_exit"}
+FirstStale(t, c) == (Hist \/ KeepFlags) /\ Occ(stack, t, c) = {} /\ StaleGone(t, c) /\ flags.f \cap StaleOps = {}
 DetachFlags(t, c) ==
   LET o == Occ(stack, t, c) IN
   IF o = {} THEN (IF stack[t] # <<>> THEN {"foreign"} ELSE {}) \cup
                  (IF \E u \in Threads : u # t /\ Occ(stack, u, c) # {} THEN {"foreign_xthread"} ELSE {}) \cup
                  (IF c = 0 /\ stack[t] = <<>> THEN {"empty_tok"} ELSE {}) \cup
-                 \* a STALE token (detached before, every handle of its context dropped, nothing derived from it, on
-                 \* no stack) while a context created AFTER the drop is current: it still changes nothing
-                 (IF /\ c \in DOMAIN flags.dn /\ stack[t] # <<>>
-                     /\ stack[t][Len(stack[t])].c > flags.dn[c]
-                     /\ \A u \in Threads : Occ(stack, u, c) = {}
-                     /\ \A q \in 1..NCtx : origin[q].p # c
-                    THEN {"stale_token_after_reuse"} ELSE {})
+                 (IF StaleGone(t, c) THEN {"stale_token_after_reuse"} ELSE {}) \cup
+                 (IF StaleGone(t, c) /\ flags.dn[c].pop THEN {"stale_token_freed_by_pop"} ELSE {})
   ELSE (IF Max(o) < Len(stack[t]) THEN {"ooo"} ELSE {}) \cup
        (IF Cardinality(o) > 1 THEN {"dup"} ELSE {}) \cup
        (IF Cardinality(o) > 1 /\ Max(o) < Len(stack[t]) THEN {"dup_ooo"} ELSE {}) \cup
@@ -174,15 +202,30 @@ DetachFlags(t, c) ==
        (IF Len(stack[t]) >= 31 /\ Max(o) <= 14 THEN {"ooo_deep2"} ELSE {}) \cup
        (IF Len(stack[t]) >= 15 /\ Max(o) - 1 <= 3 THEN {"unwind_to_small"} ELSE {}) \cup
        (IF phase[t] = 3 /\ Max(o) < Len(stack[t]) /\ Len(stack[t]) >= 15 /\ Max(o) <= 7 THEN {"ooo_after_regrow"} ELSE {})
-Detach(t, c) ==
-  /\ c \in toks
-  /\ stack' = Unwind(t, c)
-  /\ Phase(t)
-  /\ UNCHANGED <<val, origin, toks, scopes, live>>
-  /\ Rec([NoOp EXCEPT !.op = "Detach", !.t = t, !.c = c,
-                      !.ok = IF Occ(stack, t, c) # {} THEN 1
-                             ELSE IF c = 0 /\ stack[t] = <<>> THEN 2 ELSE 0])
-  /\ Flag(DetachFlags(t, c))
+Detach(t, k) ==
+  /\ k \in LiveToks
+  /\ LET c == tok[k] IN
+     /\ stack' = Unwind(t, c)
+     /\ Phase(t)
+     /\ UNCHANGED <<val, origin, tok, scopes, live>>      \* the token object lives on: it may be used again
+     /\ Rec([NoOp EXCEPT !.op = "Detach", !.t = t, !.c = c, !.tk = k, !.stale = FirstStale(t, c),
+                         !.ok = IF Occ(stack, t, c) # {} THEN 1
+                                ELSE IF c = 0 /\ stack[t] = <<>> THEN 2 ELSE 0])
+     /\ FlagD(DetachFlags(t, c) \cup (IF StaleGone(t, c) THEN {"stale_detach"} ELSE {}), Unref(Popped(t, c), TRUE))
+
+(* ---- ~Token: the program destroys token object k on thread t; the destructor detaches (no result observable) *)
+DestroyToken(t, k) ==
+  /\ k \in LiveToks
+  /\ LET c == tok[k] IN
+     /\ stack' = Unwind(t, c)
+     /\ tok' = [tok EXCEPT ![k] = -1]
+     /\ Phase(t)
+     /\ UNCHANGED <<val, origin, scopes, live>>
+     /\ Rec([NoOp EXCEPT !.op = "TokenDtor", !.t = t, !.c = c, !.tk = k, !.ok = 2, !.stale = FirstStale(t, c)])
+     /\ FlagD(DetachFlags(t, c) \cup (IF StaleGone(t, c) THEN {"stale_dtor"} ELSE {}) \cup
+              (IF Occ(stack, t, c) # {} THEN {"dtor_detaches"} ELSE {}) \cup
+              (IF Occ(stack, t, c) = {} /\ \E u \in Threads : u # t /\ Occ(stack, u, c) # {} THEN {"dtor_xthread"} ELSE {}),
+              Unref(Popped(t, c), TRUE))
 
 (* ---- trace::Scope(span): Attach(GetCurrent().SetValue(kSpanKey, span)) -- *)
 ScopeEnter(t, s) ==
@@ -195,7 +238,7 @@ ScopeEnter(t, s) ==
      /\ stack' = [stack EXCEPT ![t] = Append(@, [c |-> n, before |-> p])]
      /\ scopes' = scopes \cup {n}     \* the Scope keeps its token private: no Detach(n) by hand
      /\ live' = live \cup {n}         \* (the program reads the new context with GetCurrent())
-     /\ UNCHANGED toks
+     /\ UNCHANGED tok
      /\ Phase(t)
      /\ Rec([NoOp EXCEPT !.op = "ScopeEnter", !.t = t, !.v = 100 + s, !.n = n])
   /\ Flag((IF SpanOf(val, Cur(stack, t)) # 0 THEN {"nested_scope"} ELSE {}) \cup
@@ -208,29 +251,32 @@ ScopeExit(t, c) ==
   /\ stack' = Unwind(t, c)
   /\ scopes' = scopes \ {c}
   /\ Phase(t)
-  /\ UNCHANGED <<val, origin, toks, live>>
-  /\ Rec([NoOp EXCEPT !.op = "ScopeExit", !.t = t, !.c = c, !.ok = 2])
-  /\ Flag((IF Occ(stack, t, c) # {} /\ Max(Occ(stack, t, c)) < Len(stack[t]) THEN {"scope_ooo"} ELSE {}) \cup
-          (IF Occ(stack, t, c) # {} /\ SpanOf(val, stack[t][Max(Occ(stack, t, c))].before) # 0
-              THEN {"scope_restores_span"} ELSE {}) \cup
-          (IF Occ(stack, t, c) # {} /\ c \notin live THEN {"scope_exit_destroys"} ELSE {}))
+  /\ UNCHANGED <<val, origin, tok, live>>
+  /\ Rec([NoOp EXCEPT !.op = "ScopeExit", !.t = t, !.c = c, !.ok = 2, !.stale = FirstStale(t, c)])
+  /\ FlagD((IF Occ(stack, t, c) # {} /\ Max(Occ(stack, t, c)) < Len(stack[t]) THEN {"scope_ooo"} ELSE {}) \cup
+           (IF Occ(stack, t, c) # {} /\ SpanOf(val, stack[t][Max(Occ(stack, t, c))].before) # 0
+               THEN {"scope_restores_span"} ELSE {}) \cup
+           (IF Occ(stack, t, c) # {} /\ c \notin live THEN {"scope_exit_destroys"} ELSE {}) \cup
+           (IF Occ(stack, t, c) = {} /\ StaleGone(t, c) THEN {"stale_scope_exit"} ELSE {}),
+           Unref(Popped(t, c), TRUE))
 
 (* ---- the program drops its handle to context c (the object dies when nothing else refers to it) *)
 Children(c) == {q \in live : origin[q].p = c}
 DropContext(t, c) ==
   /\ c \in live /\ Cardinality((1..NCtx) \ live) < MaxDrop
   /\ live' = live \ {c}
-  /\ UNCHANGED <<val, origin, stack, toks, scopes, phase>>
+  /\ UNCHANGED <<val, origin, stack, tok, scopes, phase>>
   /\ Rec([NoOp EXCEPT !.op = "Drop", !.t = t, !.c = c])
   /\ FlagD(LET p == origin[c].p
                attached == \E u \in Threads : Occ(stack, u, c) # {} IN
            (IF Children(c) = {} /\ p \in live THEN {"drop_child_first"} ELSE {}) \cup
-           (IF Children(c) = {} /\ p \in live /\ origin[p].p # 0 /\ ~attached /\ c \notin toks
+           (IF ~attached /\ \E k \in LiveToks : tok[k] = c THEN {"drop_with_token_alive"} ELSE {}) \cup
+           (IF Children(c) = {} /\ p \in live /\ origin[p].p # 0 /\ ~attached /\ \A k \in LiveToks : tok[k] # c
                THEN {"drop_leaf_of_chain"} ELSE {}) \cup
            (IF Children(c) # {} THEN {"drop_parent_first"} ELSE {}) \cup
            (IF Children(c) # {} /\ p \in live THEN {"drop_middle"} ELSE {}) \cup
            (IF attached THEN {"drop_attached"} ELSE {}),
-           flags.dn @@ (c :> NCtx))
+           Unref({c}, FALSE))
 
 (* ---- generation runs only: a closing no-op step, so that a random walk ends in exactly one ---- *)
 (* ---- exported behaviour (observations are still compared after it)                      ---- *)
@@ -242,19 +288,23 @@ End == /\ Hist /\ Len(hist) = GenDepth - 1
 DoSetValue   == \E t \in Threads, p \in Ctxs, k \in Keys, v \in Val : SetValue(t, p, k, v)
 DoSetValues  == \E t \in Threads, p \in Ctxs, m \in Maps : SetValues(t, p, m)
 DoAttach     == \E t \in Threads, c \in Ctxs : Attach(t, c)
-DoDetach     == \E t \in Threads, c \in toks : Detach(t, c)
+TokCands     == IF SampleToks = 0 \/ Cardinality(LiveToks) <= SampleToks THEN LiveToks
+                ELSE {Max(LiveToks)} \cup {RandomElement(LiveToks) : i \in 1..(SampleToks - 1)}
+DoDetach     == \E t \in Threads, k \in TokCands : Detach(t, k)
+DoTokenDtor  == \E t \in Threads, k \in TokCands : DestroyToken(t, k)
 DoScopeEnter == \E t \in Threads, s \in 1..NS : ScopeEnter(t, s)
 DoScopeExit  == \E t \in Threads, c \in scopes : ScopeExit(t, c)
 DoDrop       == \E t \in Threads, c \in live : DropContext(t, c)
 
-Next == DoSetValue \/ DoSetValues \/ DoAttach \/ DoDetach \/ DoScopeEnter \/ DoScopeExit \/ DoDrop \/ End
+Next == DoSetValue \/ DoSetValues \/ DoAttach \/ DoDetach \/ DoTokenDtor \/ DoScopeEnter \/ DoScopeExit \/ DoDrop \/ End
 Spec == Init /\ [][Next]_vars
 
 (* ======================= the property C10 ================================ *)
 TypeOK == /\ Len(origin) = Len(val)
           /\ \A c \in 1..NCtx : val[c] \in [Keys -> Val \cup {0}] /\ origin[c].p \in 0..(c - 1)
           /\ \A t \in Threads : \A i \in 1..Len(stack[t]) : stack[t][i].c \in Ctxs
-          /\ toks \subseteq Ctxs /\ scopes \subseteq Ctxs /\ live \subseteq 1..NCtx
+          /\ \A k \in 1..Len(tok) : tok[k] \in Ctxs \cup {-1}
+          /\ scopes \subseteq Ctxs /\ live \subseteq 1..NCtx
 
 \* "the most recent binding of a key is the one returned": walk the derivation chain
 RECURSIVE Chain(_, _)
@@ -277,15 +327,26 @@ Immutable == [][/\ Len(val') >= Len(val)
 AttachMakesCurrent == [][last'.op = "Attach" => Cur(stack', last'.t) = last'.c]_vars
 Matched(l) == Occ(stack, l.t, l.c) # {}
 DetachRestores ==
-  [][(last'.op \in {"Detach", "ScopeExit"} /\ Matched(last'))
+  [][(last'.op \in {"Detach", "TokenDtor", "ScopeExit"} /\ Matched(last'))
         => LET t == last'.t
                i == Max(Occ(stack, t, last'.c)) IN
            /\ Cur(stack', t) = stack[t][i].before          \* what was current before the matching Attach
            /\ Len(stack'[t]) = i - 1                        \* everything attached above it is unwound
            /\ \A j \in Occ(stack, t, last'.c) : j <= i      \* most recent occurrence first
            /\ (last'.op = "Detach" => last'.ok = 1)]_vars
+\* a foreign token - attached by another thread, or STALE (already detached), whatever happened to its context and
+\* whichever contexts were created and attached since - changes nothing, when it is detached and when it is destroyed
 ForeignTokenNoOp ==
-  [][(last'.op \in {"Detach", "ScopeExit"} /\ ~Matched(last')) => stack' = stack]_vars
+  [][(last'.op \in {"Detach", "TokenDtor", "ScopeExit"} /\ ~Matched(last'))
+        => stack' = stack /\ (last'.op = "Detach" => last'.ok \in {0, 2})]_vars
+\* a token object stands for the context it was returned for, all its life; only its destructor ends it; handles
+\* and tokens are independent (dropping every handle leaves the tokens alone, a token does not resurrect a handle)
+TokenLifetime ==
+  [][/\ Len(tok') >= Len(tok)
+     /\ \A k \in 1..Len(tok) : tok'[k] = tok[k] \/ (last'.op = "TokenDtor" /\ last'.tk = k /\ tok'[k] = -1)
+     /\ last'.op \in {"Detach", "TokenDtor"} => (last'.tk \in LiveToks /\ last'.c = tok[last'.tk] /\ live' = live)
+     /\ last'.op = "Attach" => (tok' = Append(tok, last'.c) /\ last'.tk = Len(tok'))
+     /\ last'.op \notin {"Attach", "TokenDtor"} => tok' = tok]_vars
 ScopeActivates ==
   [][/\ last'.op = "ScopeEnter" => CurSpan(val', stack', last'.t) = last'.v - 100
      /\ (last'.op = "ScopeExit" /\ Matched(last'))
@@ -295,7 +356,7 @@ ThreadsIsolated ==
   [][\A u \in Threads : u # last'.t => stack'[u] = stack[u]]_vars
 
 (* ======================= behaviour export ================================ *)
-View == <<bvars, flags>>
+View == <<val, origin, stack, TokBag, scopes, live, phase, flags>>
 Bound == Len(hist) <= GenDepth
 \* (TLC's simulator evaluates invariants on ALL successors of the current state, before it picks
 \*  one: printing only after the closing End step gives exactly one line per random walk)
@@ -308,8 +369,13 @@ Grow == {"Attach", "ScopeEnter", "SetValue", "SetValues", "End"}
 DeepCycle == LET t == last'.t IN
              (last'.op # "End") =>
                /\ phase[t] \in {0, 2} => last'.op \in Grow
-               /\ phase[t] = 1 => last'.op \in {"Detach", "ScopeExit", "Drop"}
+               /\ phase[t] = 1 => last'.op \in {"Detach", "TokenDtor", "ScopeExit", "Drop"}
 Closing == (Len(hist) = GenDepth - 1) => last'.op = "End"
+\* every abstract state (small domain) in which a STALE token / scope is detached or destroyed, each with a shortest
+\* behaviour leading to it: EmitStale as invariant, StopAtStale as action constraint (nothing follows the stale operation)
+StaleView   == <<val, origin, stack, TokBag, scopes, live, flags.dn, flags.f \cap StaleOps>>
+EmitStale   == last.stale => PrintT(<<"BEH", ToJson(hist)>>)
+StopAtStale == flags.f \cap StaleOps = {}
 Wit(f) == (f \in flags.f) => (PrintT(<<"BEH", ToJson(hist)>>) /\ FALSE)
 WitShadow       == Wit("shadow")
 WitSibling      == Wit("sibling")
@@ -322,7 +388,13 @@ WitReattach     == Wit("reattach")
 WitForeign      == Wit("foreign")
 WitForeignX     == Wit("foreign_xthread")
 WitEmptyTok     == Wit("empty_tok")
-WitStaleToken   == Wit("stale_token_after_reuse")
+WitStaleDetach  == Wit("stale_detach")
+WitStaleDtor    == Wit("stale_dtor")
+WitStaleScope   == Wit("stale_scope_exit")
+WitStalePop     == Wit("stale_token_freed_by_pop")
+WitDropTokAlive == Wit("drop_with_token_alive")
+WitDtorDetaches == Wit("dtor_detaches")
+WitDtorX        == Wit("dtor_xthread")
 WitOoo          == Wit("ooo")
 WitDup          == Wit("dup")
 WitDupOoo       == Wit("dup_ooo")
